@@ -34,7 +34,24 @@ class Prov:
         return self.rd.reaching(at, name)
 
     def _each_value(self, name_node: ast.Name, at: ast.AST):
-        for d in self._defs(name_node.id, at):
+        defs = self._defs(name_node.id, at)
+        if not defs and name_node.id in self.fi.module.constants and name_node.id not in self.fi.params:
+            # a module-level constant (bound once at import): its defining expression, which may name further constants
+            import copy as _copy
+            expr = _copy.deepcopy(self.fi.module.constants[name_node.id])
+            for _round in range(4):
+                names = [n for n in ast.walk(expr) if isinstance(n, ast.Name) and n.id in self.fi.module.constants]
+                if not names:
+                    break
+
+                class _R(ast.NodeTransformer):
+                    def visit_Name(s_, n):
+                        c_ = self.fi.module.constants.get(n.id)
+                        return _copy.deepcopy(c_) if c_ is not None and isinstance(n.ctx, ast.Load) else n
+                expr = _R().visit(expr)
+            yield ("expr", expr, at)
+            return
+        for d in defs:
             if d.kind == "param":
                 yield ("param", d.name, None)
             else:
@@ -120,6 +137,11 @@ class Prov:
                 else:
                     ok = self.bound(v, st, hard) and ok
             return ok
+        if isinstance(e, ast.IfExp):
+            # either arm may be the bound: both must be admissible (`LIMIT if x is None else x`)
+            a_ = self.bound(e.body, at, hard)
+            b_ = self.bound(e.orelse, at, hard)
+            return a_ and b_
         if self._is_extreme(e, hard):
             return True
         # <bounded frame>.index.max() / .min()
